@@ -54,6 +54,8 @@ type Exec struct {
 	kindIDs   map[string]int
 	typeIDs   map[string]int
 	ifx       *ifaceFacts
+	// calleeBind: bindings of the closure whose contract is being applied
+	calleeBind []Value
 	strIDs    map[string]int
 	entry     *State
 	entryEnv  map[string]SV
